@@ -40,6 +40,11 @@ type c03Case struct {
 	// must still be there, untouched.
 	FaultAt  int `json:"fault_at,omitempty"`
 	FaultErr int `json:"fault_err,omitempty"`
+	// Former != "": earlier in the history the name held another object ("file", "dir" or "link") that was made through
+	// the server (so a handle was issued for it) and removed through the server again; the present occupant then arrives
+	// by a RENAME through the server (Via "rename") or is put there directly.
+	Former string `json:"former,omitempty"`
+	Via    string `json:"via,omitempty"`
 }
 
 func (c c03Case) sattr() nfsx.Sattr {
@@ -89,24 +94,25 @@ func runC03(tb stat.TB, c c03Case) {
 	}
 	abandoned := guard(func() {
 		root := s.mount()
-		seed := func() {
+		seedAt := func(at string) {
 			switch c.Existing {
 			case "file":
-				v.SeedFile("/x", 0644, 1, 1, data)
+				v.SeedFile(at, 0644, 1, 1, data)
 			case "dir":
-				v.SeedDir("/x", 0755, 1, 1)
+				v.SeedDir(at, 0755, 1, 1)
 			case "dirfull":
-				v.SeedDir("/x", 0755, 1, 1)
-				v.SeedFile("/x/child", 0644, 1, 1, []byte("child"))
+				v.SeedDir(at, 0755, 1, 1)
+				v.SeedFile(at+"/child", 0644, 1, 1, []byte("child"))
 			case "linkfile":
 				if _, ok := v.PeekLstat("/target"); !ok {
 					v.SeedFile("/target", 0644, 1, 1, data)
 				}
-				v.SeedSymlink("/x", "target", 1, 1)
+				v.SeedSymlink(at, "target", 1, 1)
 			case "linkdangling":
-				v.SeedSymlink("/x", "nowhere", 1, 1)
+				v.SeedSymlink(at, "nowhere", 1, 1)
 			}
 		}
+		seed := func() { seedAt("/x") }
 		if c.Appear > 0 {
 			if c.Existing == "linkfile" {
 				v.SeedFile("/target", 0644, 1, 1, data)
@@ -125,7 +131,38 @@ func runC03(tb stat.TB, c c03Case) {
 			f.WriteAt(data, 0)
 			f.Close()
 		} else {
-			seed()
+			if c.Former != "" {
+				var mk, rm *nfsx.Res
+				switch c.Former {
+				case "dir":
+					mk = s.nfs(nfsx.ProcMkdir, nfsx.ArgsMkdir(root, "x", nfsx.Sattr{}))
+					s.nfs(nfsx.ProcGetattr, nfsx.ArgsFh(mk.Fh))
+					rm = s.nfs(nfsx.ProcRmdir, nfsx.ArgsDirop(root, "x"))
+				case "link":
+					mk = s.nfs(nfsx.ProcSymlink, nfsx.ArgsSymlink(root, "x", nfsx.Sattr{}, "target"))
+					rm = s.nfs(nfsx.ProcRemove, nfsx.ArgsDirop(root, "x"))
+				default:
+					mk = s.nfs(nfsx.ProcCreate, nfsx.ArgsCreate(root, "x", nfsx.Unchecked, nfsx.Sattr{}, verfA))
+					if mk.Status == nfsx.OK && len(mk.Fh) > 0 {
+						s.nfs(nfsx.ProcWrite, nfsx.ArgsWrite(mk.Fh, 0, 3, 2, []byte("old")))
+					}
+					rm = s.nfs(nfsx.ProcRemove, nfsx.ArgsDirop(root, "x"))
+				}
+				if _, still := v.PeekLstat("/x"); mk.Status != nfsx.OK || rm.Status != nfsx.OK || still {
+					stat.Discard(false)
+					panic(abandon{"setup of the former occupant failed"})
+				}
+			}
+			if c.Via == "rename" && c.Existing != "none" {
+				seedAt("/y")
+				s.nfs(nfsx.ProcLookup, nfsx.ArgsDirop(root, "y"))
+				if r := s.nfs(nfsx.ProcRename, nfsx.ArgsRename(root, "y", root, "x")); r.Status != nfsx.OK {
+					stat.Discard(false)
+					panic(abandon{"setup RENAME failed"})
+				}
+			} else {
+				seed()
+			}
 		}
 		if c.PreLook {
 			s.nfs(nfsx.ProcLookup, nfsx.ArgsDirop(root, "x"))
@@ -319,6 +356,12 @@ func runC03(tb stat.TB, c c03Case) {
 			nt = false
 		}
 	}
+	if c.Former != "" && c.Appear == 0 {
+		ls = append(ls, "name_formerly_held_"+c.Former)
+		if c.Via == "rename" {
+			ls = append(ls, "occupant_renamed_into_place")
+		}
+	}
 	if c.Appear > 0 {
 		if appeared {
 			ls = append(ls, fmt.Sprintf("appeared_before_call_%d", c.Appear))
@@ -363,6 +406,17 @@ func c03Enumerate() []c03Case {
 				}
 			}
 		}
+		if ex != "none" {
+			for _, former := range []string{"file", "dir", "link"} {
+				for _, via := range []string{"", "rename"} {
+					for _, how := range []uint32{nfsx.Unchecked, nfsx.Guarded, nfsx.Exclusive} {
+						for _, flags := range []int{0, 8} {
+							out = append(out, c03Case{Existing: ex, Data: data, How: how, Flags: flags, Size: 0, Creator: "plain", Cache: baselineCaches, Former: former, Via: via})
+						}
+					}
+				}
+			}
+		}
 		for _, cr := range []string{"same", "other", "plain"} {
 			out = append(out, c03Case{Existing: ex, Data: data, How: nfsx.Exclusive, Creator: cr, Cache: baselineCaches})
 			out = append(out, c03Case{Existing: ex, Data: data, How: nfsx.Exclusive, Creator: cr, Cache: cacheCfg{AttrTTLns: 3600e9, AttrSize: 10000, DirCache: true, Negative: true}, PreLook: true})
@@ -402,6 +456,8 @@ func genC03(t *rapid.T) c03Case {
 		Cache:    cacheCfg{AttrTTLns: pick(t, "ttl", int64(1), int64(3600e9)), AttrSize: pick(t, "asize", 1, 10000), DirCache: rapid.Bool().Draw(t, "dc"), Negative: rapid.Bool().Draw(t, "neg")},
 		PreLook:  rapid.Bool().Draw(t, "prelook"),
 		Appear:   pick(t, "appear", 0, 0, 0, 1, 2, 3, 4, 5),
+		Former:   pick(t, "former", "", "", "file", "dir", "link"),
+		Via:      pick(t, "via", "", "rename"),
 	}
 	if rapid.IntRange(0, 3).Draw(t, "fault") == 0 {
 		c.FaultAt, c.FaultErr = rapid.IntRange(1, 8).Draw(t, "fault_at"), rapid.IntRange(0, len(c14Faults)-1).Draw(t, "fault_err")
